@@ -1,11 +1,11 @@
 SPECIFICATION Spec
 CONSTANTS
   Names <- MCNames
-  MaxOps = 5
-  Cap = 2
+  MaxOps = 4
+  Cap = 0
   RingSize = 2
-  STRICT_REMOVE = FALSE
+  STRICT_REMOVE = TRUE
   WatchFile = TRUE
-  HELD = FALSE
+  HELD = TRUE
 INVARIANTS InOrder Correlated NoLoss
 CHECK_DEADLOCK FALSE
